@@ -86,6 +86,18 @@ def mutants(files, rnd):
                             continue  # a declaration or a struct field name, not a use
                         new = code[: m.start()] + b_ + code[m.end():] + l[len(code):]
                         ms.append({"file": f, "line": i, "old": l.strip(), "new": new.strip(), "text": new, "op": "pair"})
+            # ranges, error propagation, character literals
+            for pat, rep in ((r"(?<![.=])\.\.(?![.=])", "..="), (r"\.\.=", ".."), (r"\b0\.\.", "1.."), (r"\)\?;", ").ok();"), (r"\)\?$", ").ok()")):
+                for m in re.finditer(pat, code):
+                    new = code[: m.start()] + rep + code[m.end():] + l[len(code):]
+                    if new != l:
+                        ms.append({"file": f, "line": i, "old": l.strip(), "new": new.strip(), "text": new, "op": "range_try"})
+            for m in re.finditer(r"'([^'\\])'", code):
+                c0 = m.group(1)
+                c1 = chr(ord(c0) + 1)
+                if c1 not in "'\\":
+                    new = code[: m.start()] + "'" + c1 + "'" + code[m.end():] + l[len(code):]
+                    ms.append({"file": f, "line": i, "old": l.strip(), "new": new.strip(), "text": new, "op": "charlit"})
             # a condition forced: the guarded code runs always / never
             m = re.match(r"^(\s*)(\} else )?if (?!let )(.+) \{\s*$", code)
             if m:
